@@ -8,7 +8,9 @@ from lib.common import cstr, run_cases, coq_eval
 from lib import impl, absprop, epwork
 from gen import ops as OPS
 
-HDR_BASE = "Require Import OPC.gen.GenKinds OPC.Uni OPC.Names OPC.Codec OPC.CodecObs OPC.Types OPC.Endpoint OPC.EndpointObs.\nOpen Scope N_scope.\n"
+HDR_BASE = ("Require Import OPC.gen.GenKinds OPC.Uni OPC.Names OPC.Codec OPC.CodecObs OPC.Types OPC.Endpoint OPC.EndpointObs OPC.Parse.\nOpen Scope N_scope.\n"
+            "Definition btype_eqb (a b : btype) : bool := match a, b with BJson, BJson | BData, BData | BFiles, BFiles | BContent, BContent => true | _, _ => false end.\n"
+            "Definition bplan_eqb (a b : bplan) : bool := match a, b with BInvalidType, BInvalidType | BMissingSchema, BMissingSchema | BUnsupported, BUnsupported => true | BBody x, BBody y => btype_eqb x y | _, _ => false end.\n")
 
 
 def doc_operation(doc, ep):
@@ -61,6 +63,26 @@ def work(args):
                     ops.append({"op": "call", "module": module, "variant": "sync_detailed", "kwargs": kwargs, "auth": bool(ep.requires_security), "response": {"status": 508}})
                     ops.append({"op": "call", "module": module, "variant": "asyncio_detailed", "kwargs": kwargs, "auth": bool(ep.requires_security), "response": {"status": 508}})
                     meta.append((module, ep, cep, vec))
+            # document-level body plans: what body_from_data decided for each declared media type vs Parse.body_plan
+            from openapi_python_client.utils import get_content_type
+            plans = []
+            for module, tag, ep in eps:
+                found = doc_operation(doc, ep)
+                rb = found[2].get("requestBody") if found else None
+                if not rb or "content" not in rb:
+                    continue
+                for ct, mt in rb["content"].items():
+                    simp = get_content_type(ct, config)
+                    got = next((b for b in ep.bodies if b.content_type == ct), None)
+                    if got is not None:
+                        obs = "(BBody %s)" % epwork.BT[str(got.body_type.value)]
+                    else:
+                        det = " ".join(str(e.detail) for e in ep.errors)
+                        obs = "BInvalidType" if simp is None else ("BMissingSchema" if "schema" not in mt else "BUnsupported")
+                    term = "bplan_eqb (body_plan %s %s) %s" % ("None" if simp is None else "(Some %s)" % cstr(simp), "true" if "schema" in mt else "false", obs)
+                    mterm = "body_plan %s %s" % ("None" if simp is None else "(Some %s)" % cstr(simp), "true" if "schema" in mt else "false")
+                    plans.append({"op": ep.name, "media_type": ct, "obs": obs, "term": term, "mterm": mterm, "generated": got is not None})
+            out["plans"] = plans
             res = impl.run_client(g.out, ops, timeout=600) if ops else []
             if isinstance(res, dict):
                 out["error"] = "runner: " + res.get("fatal", "")[:1500]
@@ -337,8 +359,20 @@ def run(run, tier, replay=None):
                 continue
             terms.append(f"kw_case T{di} {c['cep']} {c['cargs'].replace('O@', f'O{di}').replace('T@', f'T{di}')} {c['obs']}")
             meta.append((di, c))
+    pterms, pmeta = [], []
+    for di, r in enumerate(results):
+        for pl in (r.get("plans") or []):
+            # a media type the model says is a body must have been generated; one the model rejects must not
+            pterms.append(pl["term"] if pl["generated"] else "match " + pl["mterm"] + " with BBody _ => false | _ => true end")
+            pmeta.append((di, pl))
+    pbad = run_cases(hdr, pterms, shard=400) if pterms else []
+    for i in pbad[:6]:
+        di, pl = pmeta[i]
+        run.violation("correspondence", {"label": results[di]["label"], "doc": results[di]["doc"], "op": pl["op"], "media_type": pl["media_type"], "impl": pl["obs"],
+                                         "note": "body_from_data's decision for this media type differs from Parse.body_plan"})
+    run.extra["body_plans_compared"] = len(pterms)
     bad = set(run_cases(hdr, terms, shard=250))
-    run.corr = {"cases": len(terms), "mismatches": len(bad), "what": "generated _get_kwargs(**args) (method, url, params, cookies, headers, json/data body; or exception) == Endpoint.get_kwargs on the endpoint abstracted from the implementation's parse"}
+    run.corr = {"cases": len(terms) + len(pterms), "mismatches": len(bad) + len(pbad), "what": "body_from_data media-type decisions == Parse.body_plan; generated _get_kwargs(**args) (method, url, params, cookies, headers, json/data body; or exception) == Endpoint.get_kwargs on the endpoint abstracted from the implementation's parse"}
     for i in sorted(bad)[:8]:
         di, c = meta[i]
         mv = coq_eval(hdr, f"get_kwargs T{di} 40 {c['cep']} {c['cargs'].replace('O@', f'O{di}').replace('T@', f'T{di}')}")
